@@ -827,3 +827,14 @@ func simBuildSuccess(txid [stun.TransactionIDSize]byte, mapped netip.AddrPort, k
 
 	return m
 }
+
+// simBuildError builds an authentic Binding error response (the peer refuses the check).
+func simBuildError(txid [stun.TransactionIDSize]byte, code stun.ErrorCode, key string) *stun.Message {
+	m, err := stun.Build(stun.NewType(stun.MethodBinding, stun.ClassErrorResponse), stun.NewTransactionIDSetter(txid),
+		stun.ErrorCodeAttribute{Code: code, Reason: []byte("refused")}, stun.NewShortTermIntegrity(key), stun.Fingerprint)
+	if err != nil {
+		panic(err)
+	}
+
+	return m
+}
